@@ -208,4 +208,36 @@ theorem parseInt_showInt (n : Int) : parseInt (showInt n) = some n := by
     rw [digitPart_digits _ (natDigits_isDigit _) 0 0 (Or.inl (natDigits_ne_nil _)), digitsValFrom_natDigits]
     rfl
 
+/-! ### rejection helpers -/
+
+theorem digitPart_all (s : Str) (acc k : Nat) (us : Bool) (v n : Nat)
+    (h : digitPart s acc k us = some (v, n, [])) : ∀ c ∈ s, isDigit c = true ∨ c = 95 := by
+  induction s generalizing acc k us with
+  | nil => intro c hc; cases hc
+  | cons x xs ih =>
+    intro c hc
+    simp only [digitPart] at h
+    by_cases hx : isDigit x = true
+    · simp only [hx, if_true] at h
+      rcases List.mem_cons.mp hc with rfl | hm
+      · exact Or.inl hx
+      · exact ih _ _ _ h c hm
+    · simp only [hx, Bool.false_eq_true, if_false] at h
+      by_cases h95 : x = 95
+      · simp only [h95, if_true] at h
+        split at h
+        · cases h
+        · rcases List.mem_cons.mp hc with rfl | hm
+          · exact Or.inr h95
+          · exact ih _ _ _ h c hm
+      · simp only [h95, if_false] at h
+        split at h <;> cases h
+
+theorem mem_of_mem_takeSign (s : Str) (c : Nat) (hc : c ∈ s) (h1 : c ≠ 45) (h2 : c ≠ 43) : c ∈ (takeSign s).2 := by
+  unfold takeSign
+  split
+  · simp only [List.mem_cons] at hc; rcases hc with rfl | h; exact absurd rfl h1; exact h
+  · simp only [List.mem_cons] at hc; rcases hc with rfl | h; exact absurd rfl h2; exact h
+  · exact hc
+
 end TornadoModel.C44
